@@ -18,8 +18,8 @@ RULE = ("case 'rec' = (frame of 1..64 bytes with standard or extended id, 1..4 i
         "expressions on the .py/.lua text, lxml on FIBEX, csv, json) extract the recorded numbers. case 'frame' = the frame-level "
         "records (identifier, format, length) and the recorded scaling. Non-trivial = distinct case with a signal wider than one bit.")
 PARTIAL = ["the target tools are not installed: their reading conventions are the trusted Spec/Exports.lean",
-           "FIBEX multiplexer switch/segment positions (MUXed PDUs) and FIBEX coded types are not compared, only SIGNAL-INSTANCE "
-           "position/byte order, CODING bit length, frame length and identifier",
+           "FIBEX dynamic/static segment positions of multiplexed PDUs are not compared; compared are SIGNAL-INSTANCE and SWITCH "
+           "position/byte order, CODING bit length and base data type (signedness), frame length and identifier",
            "recorded factor/offset are compared numerically in the harness, not through the Lean model"]
 ASSUMPTIONS = ["frames are not extended-multiplexed; identifier numbers unique across standard/extended (CSV keys rows by the number)"]
 TRUSTED = ["lxml, csv, json, re used by the mini-parsers"]
@@ -75,26 +75,30 @@ def records(fd, arbid, ext):
     for n in names:
         m2 = re.search(r"is_signed =  (\w+):bitfield\((\d+),1\)\n\s+if is_signed == 1 then\n\s+my_frame_tree:add\(Fr_%s, (\w+):bitfield\((\d+),(\d+)\) - (\d+)\)" % re.escape(n), txt)
         if m2:
-            out["sig"][n]["ws"] = [m2.group(3), int(m2.group(4)), int(m2.group(5)), int(m2.group(6))]
+            out["sig"][n]["ws"] = [m2.group(3), int(m2.group(4)), int(m2.group(5)), int(m2.group(6)), m2.group(1), int(m2.group(2))]
             continue
         m3 = re.search(r"my_frame_tree:add\(Fr_%s, (\w+):bitfield\((\d+),(\d+)\)\)" % re.escape(n), txt)
         if m3:
-            out["sig"][n]["ws"] = [m3.group(1), int(m3.group(2)), int(m3.group(3)), None]
+            out["sig"][n]["ws"] = [m3.group(1), int(m3.group(2)), int(m3.group(3)), None, None, None]
             continue
         d = [x for x in fd["sigs"] if x[0] == n][0]
         m4 = re.search(r"local muxer = (\w+):bitfield\((\d+),(\d+)\)", txt)
         if m4 and d[6]:
             # the multiplexer is read into `muxer` (unsigned by construction: it is compared with the selector values)
-            out["sig"][n]["ws"] = [m4.group(1), int(m4.group(2)), int(m4.group(3)), (1 << d[2]) if (d[4] and not d[5]) else None]
+            sf = (1 << d[2]) if (d[4] and not d[5]) else None
+            out["sig"][n]["ws"] = [m4.group(1), int(m4.group(2)), int(m4.group(3)), sf, m4.group(1) if sf else None, int(m4.group(2)) if sf else None]
     # fibex
     root = lxml.etree.fromstring(export(db, "fibex"))
     ns = {"fx": "http://www.asam.net/xml/fbx", "ho": "http://www.asam.net/xml"}
     bitlen = {}
+    basetype = {}
     for coding in root.iter("{%s}CODING" % ns["fx"]):
         cid = coding.get("ID")
         bl = coding.find(".//{%s}BIT-LENGTH" % ns["ho"])
         if bl is not None:
             bitlen[cid] = int(bl.text)
+        ct = coding.find("{%s}CODED-TYPE" % ns["ho"])
+        basetype[cid] = ct.get("{%s}BASE-DATA-TYPE" % ns["ho"]) if ct is not None else None
     sig2coding = {}
     for sg in root.iter("{%s}SIGNAL" % ns["fx"]):
         ref = sg.find("{%s}CODING-REF" % ns["fx"])
@@ -107,13 +111,14 @@ def records(fd, arbid, ext):
         pos = int(inst.find("{%s}BIT-POSITION" % ns["fx"]).text)
         hl = inst.find("{%s}IS-HIGH-LOW-BYTE-ORDER" % ns["fx"]).text == "true"
         if n in out["sig"]:
-            out["sig"][n]["fibex"] = [pos, hl, bitlen.get(sig2coding.get(ref))]
+            out["sig"][n]["fibex"] = [pos, hl, bitlen.get(sig2coding.get(ref)), basetype.get(sig2coding.get(ref))]
     for sw in root.iter("{%s}SWITCH" % ns["fx"]):
         n = sw.find("{%s}SHORT-NAME" % ns["ho"]).text
         if n in out["sig"]:
+            cid = "CODING_Fr." + n
             out["sig"][n]["fibex"] = [int(sw.find("{%s}BIT-POSITION" % ns["fx"]).text),
                                       sw.find("{%s}IS-HIGH-LOW-BYTE-ORDER" % ns["fx"]).text == "true",
-                                      int(sw.find("{%s}BIT-LENGTH" % ns["ho"]).text)]
+                                      int(sw.find("{%s}BIT-LENGTH" % ns["ho"]).text), basetype.get(cid)]
     idv = root.find(".//{%s}IDENTIFIER-VALUE" % ns["fx"])
     fl = [f for f in root.iter("{%s}FRAME" % ns["fx"])]
     out["frame"]["fibex"] = [int(idv.text) if idv is not None else None,
